@@ -1116,5 +1116,168 @@ def C17(tier):
                    'all subsets of size <= %d of 11 damage kinds (files deleted/truncated/extended/added, empty and nested empty directories, count, size) on Cache and a 2-shard FanoutCache' % (2 if tier == 'quick' else 3), cases, bad)]
 
 
+# ====================================================================== lock timeouts (C14)
+def _dirstate(d):
+    out = []
+    for dp, dn, fn in os.walk(d):
+        for f in fn:
+            if 'cache.db' not in f:
+                out.append(os.path.relpath(os.path.join(dp, f), d))
+    return sorted(out)
+
+
+def C14(tier):
+    import sqlite3
+    import contextlib
+    import diskcache
+    bad = None
+    cases = 0
+    d = tempfile.mkdtemp()
+    try:
+        c = diskcache.Cache(d + '/c', timeout=0, disk_min_file_size=64, cull_limit=0)
+        c.set('k', 1)
+        c.set('big', b'x' * 500)
+        holder = sqlite3.connect(d + '/c/cache.db', isolation_level=None, timeout=0)
+        holder.execute('BEGIN IMMEDIATE')
+        ops = [('set inline', lambda: c.set('a', 1)), ('set file', lambda: c.set('b', b'y' * 500)),
+               ('add', lambda: c.add('c', b'y' * 500)), ('incr', lambda: c.incr('k')), ('touch', lambda: c.touch('k', 5)),
+               ('pop', lambda: c.pop('k')), ('delete', lambda: c.delete('k')), ('push', lambda: c.push(b'z' * 500)),
+               ('pull', lambda: c.pull()), ('clear', lambda: c.clear()), ('evict', lambda: c.evict('t')),
+               ('expire', lambda: c.expire()), ('cull', lambda: c.cull())]
+        before = _dirstate(d + '/c')
+        for name, f in ops:
+            cases += 1
+            try:
+                f()
+                bad = bad or 'Cache.%s did not raise Timeout while another connection holds the lock' % name
+            except diskcache.Timeout:
+                pass
+            if _dirstate(d + '/c') != before:
+                bad = bad or 'Cache.%s left a value file behind after Timeout: %r' % (name, sorted(set(_dirstate(d + '/c')) - set(before)))
+        if c.get('k') != 1 or ('k' in c) is not True or c.get('big') != b'x' * 500:
+            bad = bad or 'lookups do not work while another client holds the lock'
+        holder.execute('ROLLBACK')
+        if c.get('a') is not None or len(c) != 2:
+            bad = bad or 'an operation that timed out had an effect (len %d)' % len(c)
+        for name, f in ops[:3]:
+            f()
+        # sharded cache: failures are reported through the return value
+        fc = diskcache.FanoutCache(d + '/f', shards=1, timeout=0, disk_min_file_size=64)
+        fc.set('k', 1)
+        h2 = sqlite3.connect(d + '/f/000/cache.db', isolation_level=None, timeout=0)
+        h2.execute('BEGIN IMMEDIATE')
+        exp = [('set', lambda: fc.set('a', b'y' * 500), False), ('add', lambda: fc.add('b', 1), False),
+               ('incr', lambda: fc.incr('k'), None), ('decr', lambda: fc.decr('k'), None), ('touch', lambda: fc.touch('k'), False),
+               ('pop', lambda: fc.pop('k', 'D'), 'D'), ('delete', lambda: fc.delete('k'), False), ('get', lambda: fc.get('k'), 1)]
+        before = _dirstate(d + '/f')
+        for name, f, want in exp:
+            cases += 1
+            try:
+                got = f()
+                if got != want:
+                    bad = bad or 'FanoutCache.%s returned %r under a held lock, documented %r' % (name, got, want)
+            except diskcache.Timeout:
+                bad = bad or 'FanoutCache.%s raised Timeout' % name
+            if _dirstate(d + '/f') != before:
+                bad = bad or 'FanoutCache.%s left a value file behind' % name
+        h2.execute('ROLLBACK')
+        # bulk removals interrupted after the first committed batch report what they removed
+        for opname in ('expire', 'clear', 'cull', 'evict'):
+            cases += 1
+            sub = d + '/bulk-' + opname
+            b = diskcache.Cache(sub, timeout=0, cull_limit=0)
+            for i in range(250):
+                b.set(i, i, expire=0.001, tag='t')
+            import time as _t
+            _t.sleep(0.01)
+            h3 = sqlite3.connect(sub + '/cache.db', isolation_level=None, timeout=0)
+            real = b._transact
+            state = {'n': 0}
+
+            @contextlib.contextmanager
+            def transact(retry=False, filename=None, real=real, state=state, h3=h3):
+                state['n'] += 1
+                if state['n'] == 2:
+                    h3.execute('BEGIN IMMEDIATE')
+                with real(retry, filename) as x:
+                    yield x
+            b._transact = transact
+            n0 = len(b)
+            try:
+                getattr(b, opname)(*(('t',) if opname == 'evict' else ()))
+                bad = bad or '%s did not raise Timeout when the lock was taken after its first batch' % opname
+            except diskcache.Timeout as t:
+                b._transact = real
+                h3.execute('ROLLBACK')
+                removed = n0 - len(b)
+                if not t.args or t.args[0] != removed:
+                    bad = bad or 'Cache.%s removed %d items but Timeout reports %r' % (opname, removed, t.args)
+            b._transact = real
+    except Exception as e:
+        import traceback
+        bad = bad or 'raised %r %s' % (e, traceback.format_exc()[-400:])
+    finally:
+        shutil.rmtree(d, ignore_errors=True)
+    return [result('C14.standin.lock_held_by_another_connection', bad is None,
+                   '13 Cache operations and 8 FanoutCache operations under a lock held by a second connection; 4 bulk removals interrupted after one batch', cases, bad)]
+
+
+def C08(tier):
+    """Fault-free histories (reference-dictionary driver) end with a clean check(); queue and bulk operations too."""
+    import diskcache
+    from diskcache import core
+    out = _dict_standin('C08', tier)[:2]
+    bad = None
+    d = tempfile.mkdtemp()
+    clock = [1000.0]
+    real = core.time.time
+    core.time.time = lambda: clock[0]
+    try:
+        c = diskcache.Cache(d, disk_min_file_size=32, cull_limit=0)
+        big = lambda ch: (ch * 200).encode()
+        c.set('a', big('a'), expire=10)
+        c.set('a', big('b'))                      # replace file-backed by file-backed
+        c.set('a', 1)                              # replace file-backed by inline
+        c.add('a', big('c'))                       # add on present: new file must go
+        c.set('e', big('e'), expire=10)
+        clock[0] += 60
+        c.incr('e', 5)                             # incr over an expired file-backed item
+        c.add('f', big('f'), expire=5)
+        clock[0] += 60
+        c.add('f', big('g'))                       # add over an expired file-backed item
+        k = c.push(big('q'))
+        c.pull()
+        c.push(big('r'), expire=1)
+        clock[0] += 5
+        c.peek()
+        c.pull()
+        c.set('t', big('t'), tag='x')
+        c.evict('x')
+        c.set('p', big('p'))
+        c.pop('p')
+        c.set('d', big('d'))
+        del c['d']
+        c.reset('cull_limit', 10)
+        c.set('x1', big('1'), expire=1)
+        clock[0] += 5
+        c.set('x2', big('2'))                      # lazy cull of the expired file-backed item
+        with c.transact():
+            c.set('n1', big('n'))
+        w = [str(x.message) for x in c.check()]
+        if w:
+            bad = 'check() after the scenario reports %r' % (w[:3],)
+        if len(c) != len(list(c)):
+            bad = bad or 'len %d but %d keys' % (len(c), len(list(c)))
+    except Exception as e:
+        import traceback
+        bad = 'raised %r %s' % (e, traceback.format_exc()[-300:])
+    finally:
+        core.time.time = real
+        shutil.rmtree(d, ignore_errors=True)
+    out.append(result('C08.standin.replace_and_removal_scenario', bad is None,
+                      'one fault-free scenario touching every replace / removal site with file-backed values', 24, bad))
+    return out
+
+
 if __name__ == '__main__':
     main()
